@@ -104,7 +104,7 @@ class DataProvider:
     def get_from_dataset(
         dataset: xr.Dataset, name: str, model_dimension: str, global_dimension: str
     ) -> ArrayLike | None:
-        """Get a copy of data from a dataset with dimensions (model, global).
+        """Get a float64 copy of data from a dataset with dimensions (model, global).
 
         Parameters
         ----------
@@ -124,7 +124,7 @@ class DataProvider:
         """
         data = None
         if name in dataset:
-            data = dataset[name].data.copy()
+            data = dataset[name].data.astype(np.float64)
             if dataset[name].dims != (model_dimension, global_dimension):
                 data = data.T
         return data
